@@ -105,7 +105,8 @@ def run_scene(sc, cfg, lazy):
 
 def sig(sc, cfg, aspect, extra=None):
     s = {"aspect": aspect, "family": sc["family"], "fft": cfg["fft"], "precision": cfg["precision"], "planning": cfg["planning"],
-         "lazy": cfg["lazy"], "wisdom": cfg["wisdom"], "switch": cfg["switch_fft_before_compute"], "op": sc.get("op")}
+         "lazy": cfg["lazy"], "wisdom": cfg["wisdom"], "switch": cfg["switch_fft_before_compute"], "op": sc.get("op"),
+         "polar_binned": any(d["kind"] in ("flexible", "segmented") for d in sc.get("detectors", []))}
     if extra:
         s.update(extra)
     return s
